@@ -746,3 +746,12 @@ where
         .get_alternatives()
         .map::<Arc<dyn Recreate>, _>(move |goal| Arc::new(RecreateWithGoal::new(Arc::new(goal), recreate_fn())))
 }
+
+/// Verification hook: the named search operators of the default (dynamic) heuristic.
+#[cfg(reinterpretcat_vrp_verif)]
+pub fn verif_default_operators(
+    problem: Arc<Problem>,
+    environment: Arc<Environment>,
+) -> Vec<(TargetSearchOperator, String, Float)> {
+    dynamic::get_operators(problem, environment)
+}
